@@ -107,4 +107,81 @@ def apply (g : Group) : Op → Group
 /-- State after a history of events, starting from the empty group (`newGroup`). -/
 def run (ops : List Op) : Group := ops.foldl apply Group.empty
 
+/-! ### Discovery (`Service.discover` → `doFindGroup`, discover.go)
+
+One discovery round for a group with `option.KeepConnectedPeers = 0` and `option.KeepPingPeers = kp`
+(the harness sets these for the duration of the round; with `KeepConnectedPeers = 0` the
+`route.Connect` loop of `discover` does nothing).  `doFindGroup` asks the connected peers (snapshot
+`BinPeers(0)` taken when the round starts), then the kept peers (snapshot taken after the connected
+round) for members: before every request `limit()` is re-evaluated and the loop breaks when it is 0.
+What the asked neighbour does while the request is in flight is the environment: a `Seg` says which
+peers `hs` complete a handshake with us meanwhile (`updatePeerGroupsJoin` → `add x true`, with the
+`IsNeighbor` answer of that moment) and which peers `ans` the answer names.  **Every peer of an answer
+goes through `Group.add(addr, false)`** (discover.go:117; generated fact
+`C38_lists_only_changed_by_group_ops`), i.e. the state changes only by `Op` events.  Finally, if the
+known list is not empty, `HandshakeAllPeers(known)` (outgoing handshakes — they fail in the harness, no
+event) and `pruneKnown()`.  The model returns the asks (neighbour, `Limit` of the request, events). -/
+
+/-- what happens while the findGroup request to neighbour `v` is in flight, and its answer -/
+structure Seg where
+  v   : Peer
+  hs  : List Peer
+  ans : List Peer
+deriving Repr, DecidableEq
+
+/-- `limit()` of `doFindGroup` with `KeepConnectedPeers = 0` -/
+def findLimit (kp : Nat) (g : Group) : Nat := kp - g.kept.length
+
+def applyAll (g : Group) (ops : List Op) : Group := ops.foldl apply g
+
+/-- events caused by asking `v`: in-flight handshakes, then `add a false` for every answered peer -/
+def askEvents (script : List Seg) (nbr : Peer → Bool) (v : Peer) : List Op :=
+  match script.find? (fun s => s.v == v) with
+  | none => []
+  | some s => s.hs.map (fun x => Op.add x true (nbr x)) ++ s.ans.map (fun a => Op.add a false false)
+
+structure Ask where
+  v   : Peer
+  lim : Nat
+  ev  : List Op
+deriving Repr, DecidableEq
+
+/-- `getNodes(list, tag)`: ask the peers of the snapshot in order while `limit() > 0` -/
+def askAll (kp : Nat) (script : List Seg) (nbr : Peer → Bool) : List Peer → Group → List Ask
+  | [], _ => []
+  | v :: vs, g =>
+    if findLimit kp g = 0 then [] else
+      let ev := askEvents script nbr v
+      { v := v, lim := findLimit kp g, ev := ev } :: askAll kp script nbr vs (applyAll g ev)
+
+def asksEvents (as : List Ask) : List Op := as.flatMap (·.ev)
+
+/-- one `doFindGroup`: the asks of the connected round, those of the kept round, and whether
+    `pruneKnown` ran at the end -/
+def doFind (kp : Nat) (script : List Seg) (nbr : Peer → Bool) (g : Group) : List Ask × List Op :=
+  if findLimit kp g = 0 then ([], []) else
+  let a1 := if g.connected.length > 0 then askAll kp script nbr g.connected g else []
+  let g1 := applyAll g (asksEvents a1)
+  if g.connected.length > 0 ∧ findLimit kp g1 = 0 then (a1, asksEvents a1) else
+  let a2 := if g1.kept.length > 0 then askAll kp script nbr g1.kept g1 else []
+  let g2 := applyAll g1 (asksEvents a2)
+  if g1.kept.length > 0 ∧ findLimit kp g2 = 0 then (a1 ++ a2, asksEvents a1 ++ asksEvents a2) else
+  (a1 ++ a2, asksEvents a1 ++ asksEvents a2 ++ (if g2.known.length > 0 then [Op.prune] else []))
+
+/-- state after a discovery round -/
+def discover (kp : Nat) (script : List Seg) (nbr : Peer → Bool) (g : Group) : Group :=
+  applyAll g (doFind kp script nbr g).2
+
+/-- histories that mix membership events with discovery rounds (any `KeepPingPeers`, any behaviour
+    of the asked neighbours and of peers handshaking meanwhile, any `IsNeighbor` table) -/
+inductive Step where
+  | op (o : Op)
+  | find (kp : Nat) (script : List Seg) (nbr : Peer → Bool)
+
+def stepApply (g : Group) : Step → Group
+  | .op o => apply g o
+  | .find kp script nbr => discover kp script nbr g
+
+def runSteps (l : List Step) : Group := l.foldl stepApply Group.empty
+
 end Aurora.Group
